@@ -133,6 +133,10 @@ func (g *Gen) Generate() *Program {
 			sb = append([]byte{'L'}, sb...)
 		}
 		g.script = string(sb) + "C"
+		if g.R.Bool() {
+			// nests in which a forwarded break / continue has to cross two constructs of the same kind
+			g.script = []string{"LsLsC", "LSLsC", "LsLSC", "LSLSC", "LLsC", "LsLC", "LLLC", "LsC", "LSC", "LLsLsC"}[g.R.Intn(10)]
+		}
 	}
 	r := g.R
 	// --- structs & resources ---
